@@ -54,6 +54,16 @@ CLAIMS = {
   'design_ref': 'DESIGN.md section 4 / C14',
   'note': 'Trusted: hand-over point sent[c]; SharesManager.query by contract (C07/C08). "each child exactly once with the same user/ticket/query" is a BOUNDED stand-in (0..3 children, labelled [bounded], not counted as proved). One defect found and fixed (3c33423).',
  },
+ 'C05': {
+  'text': 'Proof of the per-call contracts. The body of the selection loop of _get_queued_transfers is executed for an ARBITRARY transfer and ARBITRARY accumulator sets (step contract): an upload is selected iff its user is not offline, has no processing upload, has no upload selected yet and the upload is QUEUED (sound and complete), the per-user set records exactly the selected users; a z3 induction step lifts this to lists of any length (at most one per user, none offline/uploading). The ranking of _prioritize_uploads is executed for two arbitrary users and proved to embed the lexicographic order privileged > friend > online/away (so other order-preserving weights still verify); get_free_upload_slots / has_slots_free equal their formulas; everything is one atomic section. Whole-function postconditions (ordering of the result, uploads started <= free slots and the highest-priority ones) are BOUNDED stand-ins over lists of <= 2 transfers.',
+  'design_ref': 'DESIGN.md section 4 / C05',
+  'note': 'Trusted: stable list.sort / reversed, get_user_object contract. NOT decided: the instant invariant across management cycles (timing) and eventual start (liveness). [bounded] obligations are not counted as proved.',
+ },
+ 'C06': {
+  'text': 'Proof of the class invariant INV-slot (every live task of a transfer is held in one of its two slots) through slot-emptiness at the three task-creation sites: the step contract of the selection loop (arbitrary transfer) shows only transfers with both slots empty reach manage_transfers, manage_transfers stores each task in the slot of its own transfer with the matching done-callback in one atomic section, and _on_peer_transfer_request creates an initialisation task only when none exists. With INV-slot: abort()/pause() of every state cancel AND await both slots before the state change is reported (so no activation of the transfer remains), refused requests cancel nothing, a cancelled or failed remote-queue attempt never sets remotely_queued, remove = abort + removal + one event.',
+  'design_ref': 'DESIGN.md section 4 / C06',
+  'note': 'Trusted: asyncio cancellation model, C03 (the body runs on the current state under the lock). Not decided: effects of peer messages arriving later. One defect found and fixed (bac8603).',
+ },
 }
 
 NA_DEFAULT = 'check not built yet (work in progress; see DESIGN.md section 4 for the planned contracts)'
